@@ -169,6 +169,34 @@ class Permission(_TlsContract):
   def exit_getter_restored(self, old):
     return permissions.get_permission() is old['outer']
 
+  # bounded native search for a concrete failing input (the verifier's model is
+  # over abstract value ids): every pair of outer / inner permission out of
+  # {none, the empty flag, one flag, all flags}
+  def small_models(self):
+    from pyvc.contracts import Model
+    P = permissions.CodePermission
+    vals = [P(0), P.ASSIGN, P.ALL]
+    for outer in [None] + vals:
+      for perm in vals:
+        yield Model(dict(outer=outer, perm=perm), {})
+
+  def replay(self, obligation, m):
+    import contextlib
+    outer, perm = m['outer'], m['perm']
+    with (permissions.permission(outer) if outer is not None else contextlib.nullcontext()):
+      before = permissions.get_permission()
+      with permissions.permission(perm) as entered:
+        inside = permissions.get_permission()
+      after = permissions.get_permission()
+    want = perm if before is None else before
+    bad = []
+    if inside is not want or entered is not inside:
+      bad.append(f'inside the scope the effective permission is {inside!r} (yielded {entered!r}), want {want!r}')
+    if after is not before:
+      bad.append(f'after the scope the effective permission is {after!r}, before it was {before!r}')
+    return dict(outcome='reproduced' if bad else 'not-reproduced',
+                detail=f'outer scope {outer!r}, permission({perm!r}): ' + ('; '.join(bad) or 'as specified'))
+
 
 # ---------------------------------------------------------------------------
 # pg.timeit: a class-based manager whose scope is the thread-local "current
